@@ -184,10 +184,6 @@ def renderAll (st : DSt) (inst : Inst) (top : Str) : String :=
     else showResB st.ctx rs
   obs ++ " ## " ++ joinSp tags
 
-/-- dict assignment: an existing key keeps its slot -/
-def putKey (ts : List (Str × Str)) (k v : Str) : List (Str × Str) :=
-  if ts.any (fun p => p.1 == k) then ts.map (fun p => if p.1 = k then (k, v) else p) else ts ++ [(k, v)]
-
 /-- names that `synthesize` ("render") / `translate` cannot take as keyword bindings -/
 def reservedOf (st : DSt) (op : String) : List Str :=
   ((st.fsets.find? (fun p => p.1 == "@" ++ op)).map (·.2)).getD []
@@ -204,6 +200,16 @@ def setInst (st : DSt) (id : String) (i : Inst) : DSt :=
   if st.insts.any (fun p => p.1 == id) then { st with insts := st.insts.map fun p => if p.1 = id then (id, i) else p }
   else { st with insts := st.insts ++ [(id, i)] }
 
+/-- one registration on a live instance (`Ribosome.regStep`): the observation is `ok`, or `raise:ValueError` when the
+    operation has no name to write under -/
+def regOn (st : DSt) (id : String) (op : RegOp) : DSt × String :=
+  match getInst st id with
+  | none => (st, "bad-op")
+  | some i =>
+    match op.key with
+    | none => (st, "raise:ValueError")
+    | some _ => (setInst st id { i with templates := regStep i.templates op }, "ok")
+
 def step (st : DSt) (toks : List String) : DSt × String :=
   match toks with
   | "env" :: w :: s :: p :: q :: fs =>
@@ -213,29 +219,15 @@ def step (st : DSt) (toks : List String) : DSt × String :=
   | "fenv" :: es => ({ st with fenv := es.filterMap parseF }, "ok")
   | "new" :: id :: strict :: fset :: ents =>
     if st.fsets.any (fun p => p.1 == fset) then
-      let reg := ents.foldl (fun acc e =>
+      let ops : List RegOp := ents.filterMap (fun e =>
         match e.splitOn ":" with
-        | [k, _, sq] => putKey acc (decodeCps k) (decodeCps sq)
-        | _ => acc) []
-      (setInst st id { strict := boolOf strict, fset := fset, templates := reg }, "ok")
+        | [k, mn, sq] => some (.assign (decodeCps k) (decodeCps mn) (decodeCps sq))
+        | _ => none)
+      (setInst st id { strict := boolOf strict, fset := fset, templates := regRun [] ops }, "ok")
     else (st, "bad-op")
-  | ["reg", id, n, mn, s] =>
-    match getInst st id with
-    | none => (st, "bad-op")
-    | some i =>
-      let key := if decodeCps n = [] then decodeCps mn else decodeCps n
-      if key = [] then (st, "raise:ValueError")
-      else (setInst st id { i with templates := putKey i.templates key (decodeCps s) }, "ok")
-  | ["put", id, k, _, s] =>
-    match getInst st id with
-    | none => (st, "bad-op")
-    | some i => (setInst st id { i with templates := putKey i.templates (decodeCps k) (decodeCps s) }, "ok")
-  | ["tmpl", id, n, s] =>
-    match getInst st id with
-    | none => (st, "bad-op")
-    | some i =>
-      if decodeCps n = [] then (st, "raise:ValueError")
-      else (setInst st id { i with templates := putKey i.templates (decodeCps n) (decodeCps s) }, "ok")
+  | ["reg", id, n, mn, s] => regOn st id (.register (decodeCps n) (decodeCps mn) (decodeCps s))
+  | ["put", id, k, mn, s] => regOn st id (.assign (decodeCps k) (decodeCps mn) (decodeCps s))
+  | ["tmpl", id, n, s] => regOn st id (.create (decodeCps n) (decodeCps s))
   | ["strict", id, b] =>
     match getInst st id with
     | none => (st, "bad-op")
